@@ -242,7 +242,9 @@ class ImageViewerState(MatplotlibDataViewerState):
 
     @defer_draw
     def _on_xatt_change(self, *args):
-        if self.x_att is not None:
+        # Note that x_att can still be set when the viewer no longer has any
+        # layers (and hence no reference data and no choices for x_att_world)
+        if self.x_att is not None and self.reference_data is not None:
             if self._display_world:
                 self.x_att_world = self.reference_data.world_component_ids[self.x_att.axis]
             else:
@@ -250,7 +252,7 @@ class ImageViewerState(MatplotlibDataViewerState):
 
     @defer_draw
     def _on_yatt_change(self, *args):
-        if self.y_att is not None:
+        if self.y_att is not None and self.reference_data is not None:
             if self._display_world:
                 self.y_att_world = self.reference_data.world_component_ids[self.y_att.axis]
             else:
